@@ -101,11 +101,14 @@ def _replay(case, q, sc, env):
         if getattr(h, "ndim", 0) == 0 or not hasattr(h, "to_delayed"):
             continue            # scalars are cut by persist only
         for kind in case["kinds"]:
-            ln = {"cutdepth": depth, "cutkind": kind, "cut_failed": False, "msg": "", "has_graph": False, "graph": [], "outs": [], "refusal_ok": False}
+            ln = {"cutdepth": depth, "cutkind": kind, "cut_failed": False, "msg": "", "has_graph": False, "graph": [], "outs": [], "refusal_ok": False, "div_sample_may_differ": False, "div_sample_may_differ": False}
             try:
                 imp = do_cut(h, kind)
                 # merge_asof refuses inputs without known divisions ("input must be sorted!"): a cut that (documentedly) loses them makes the rest refuse
                 ln["refusal_ok"] = bool("mergeasof" in rel.ops_of(q)[len(rel.ops_of(node)):] and not imp.known_divisions)
+                # the cut collection holds a set_index / sort whose divisions are QUANTILES of its input, and the rest of the program
+                # filters rows: uncut, the optimizer pushes that filter below the sort, which is then planned on other rows
+                ln["div_sample_may_differ"] = bool(any(o in ("setindex", "sort") for o in rel.ops_of(node)) and any(o in ("filter", "dropna") for o in rel.ops_of(q)[len(rel.ops_of(node)):]))
                 cutq = build_over(q, node, imp, env)
                 res = rel.observe(lambda: rel.run_compute(cutq))
                 ln["schema_cut"] = walk.schema_of(cutq._meta)
@@ -142,11 +145,11 @@ def _replay(case, q, sc, env):
                 a = dx.concat([imp.partitions[0], imp.partitions[imp.npartitions - 1]])
                 b = dx.concat([h.partitions[0], h.partitions[h.npartitions - 1]])
                 ra, rb = rel.observe(lambda: rel.run_compute(a)), rel.observe(lambda: rel.run_compute(b))
-                lines.append({"cutdepth": depth, "cutkind": kind + "+select", "cut_failed": False, "msg": "", "has_graph": False, "graph": [], "outs": [], "refusal_ok": False,
+                lines.append({"cutdepth": depth, "cutkind": kind + "+select", "cut_failed": False, "msg": "", "has_graph": False, "graph": [], "outs": [], "refusal_ok": False, "div_sample_may_differ": False,
                               "select": True, "head": node, "uncut_override": rb, "cut": ra, "schema_cut": walk.schema_of(a._meta), "schema_uncut": walk.schema_of(b._meta),
                               "div_known_uncut": False, "div_known_cut": False, "div_uncut": [], "div_cut": [], "div_loss_documented": True})
             except Exception as ex:
-                lines.append({"cutdepth": depth, "cutkind": kind + "+select", "cut_failed": True, "msg": f"{type(ex).__name__}: {ex}"[:200], "has_graph": False, "graph": [], "outs": [], "refusal_ok": False,
+                lines.append({"cutdepth": depth, "cutkind": kind + "+select", "cut_failed": True, "msg": f"{type(ex).__name__}: {ex}"[:200], "has_graph": False, "graph": [], "outs": [], "refusal_ok": False, "div_sample_may_differ": False,
                               "cut": {"ok": False, "err": type(ex).__name__}, "schema_cut": {}, "schema_uncut": {}, "div_known_uncut": False, "div_known_cut": False,
                               "div_uncut": [], "div_cut": [], "div_loss_documented": True})
     # one common scale for all results of this program
